@@ -501,11 +501,14 @@ func (h *handler1) handleMqtt(ctx context.Context, pkt mqPkts.ControlPacket) err
 		if !forClient {
 			return nil
 		}
-		// Do not pass to a client which has fallen asleep meanwhile.
+		// Do not pass to a client which has fallen asleep meanwhile. The
+		// state changes under snSendMutex.
+		h.snSendMutex.Lock()
+		defer h.snSendMutex.Unlock()
 		if h.state.Get() != util.StateActive {
 			return nil
 		}
-		return h.snSend(snPkts1.NewPingresp())
+		return h.snSendLocked(snPkts1.NewPingresp())
 
 	// MQTT broker PUBLISH QOS 0,1,2 transaction.
 	case *mqPkts.PublishPacket:
